@@ -3,6 +3,7 @@ open Model
 open Util
 
 let tm = ref timer_init
+let tmb = ref timer_init
 
 (* observation of a state as five small integers *)
 let obs_ints (t : timer) : int * int * int * int =
@@ -53,7 +54,7 @@ let rand_op (x : int) : timer_op =
   | _ -> TTick
 
 let () =
-  on_reset (fun () -> tm := timer_init);
+  on_reset (fun () -> tm := timer_init; tmb := timer_init);
   register "tm.new" (fun _ -> tm := timer_init);
   register "tm.setc" (fun a -> tm := timer_set_counter !tm (an a 1));
   register "tm.tick" (fun _ ->
@@ -66,6 +67,22 @@ let () =
   register "tm.wtac" (fun a -> tm := fst (timer_step !tm (TWTac (an a 1))));
   register "tm.r" (fun _ -> emit (line_r !tm));
   register "tm.c" (fun _ -> emit (string_of_int (int_of_n (!tm).t_counter)));
+  (* tmb.*: the same model behind a register decoder FF04-FF07 (glue only: address -> operation) *)
+  register "tmb.new" (fun _ -> tmb := timer_init);
+  register "tmb.setc" (fun a -> tmb := timer_set_counter !tmb (an a 1));
+  register "tmb.w" (fun a ->
+      let v = an a 2 in
+      match ai a 1 with
+      | 0xff04 -> tmb := fst (timer_step !tmb (TWDiv v))
+      | 0xff05 -> tmb := fst (timer_step !tmb (TWTima v))
+      | 0xff06 -> tmb := fst (timer_step !tmb (TWTma v))
+      | 0xff07 -> tmb := fst (timer_step !tmb (TWTac v))
+      | _ -> ());
+  register "tmb.r" (fun _ -> emit (line_r !tmb));
+  register "tmb.cycle" (fun _ ->
+      let (t', irq) = timer_step !tmb TTick in
+      tmb := t';
+      emit ((if irq then "1 " else "0 ") ^ line_r t'));
   (* tm.sweep DEPTH code... : one line per first operation: index digest nontrivial-sequences *)
   register "tm.sweep" (fun a ->
       let depth = ai a 1 in
